@@ -31,8 +31,8 @@ def isas_def(rng, did):
             fs = [field(rng.choice(TRY_TYPES), names[k]) for k in range(nf)]
         else:
             fs = []
-        vs.append(variant(ident, kind, fs, dis=rng.random() < 0.12))
-    E = enum(did, vs, generics=generics)
+        vs.append(IG.decorate(rng, variant(ident, kind, fs, dis=rng.random() < 0.12)))
+    E = enum(did, vs, generics=generics, split=rng.randrange(2))
     return SC.ensure_generic_use(rng, E)
 
 
